@@ -7,11 +7,11 @@ CHECK = {'level': 'exploration',
          'renew(0|small|huge) / age-stored-records(10s|500s|2000s)+restart / restart on 6 credential kinds on a real '
          'Core; every renew response and every stored lease is checked against issue+effective max, expired leases '
          'must refuse renewal and be revoked, and the stored-lease = tracked-lease invariant must hold in every state. '
-         'K: crash after every durable mutation of renew and revoke, restart, invariant. distinct non-trivial = '
+         'K: crash after every durable mutation of renew and revoke, restart, invariant. Z: BFS (depth 3/4) over histories of a namespace with its own seal (issue token / secret in it, in its child and in the root namespace, renew, age the stored records, seal, unseal, restart and the composites seal+unseal, age+seal+unseal, age+restart+unseal): stored = tracked whenever the namespace is unsealed (outside the sealed subtree while it is sealed), every pending lease has an armed timer or a queued revocation, leases that expired across a sealed period are revoked after the unseal. distinct non-trivial = '
          'distinct (outcome class, which bounds are active) / model states',
  'assumptions': ['time passing is simulated by rewriting issue/expire times of the stored lease records through '
                  'sys/raw and restarting (no clock seam); every time-bound oracle carries a slack of 2 s',
-                 'namespaces sealed/unsealed transitions are not varied in this check'],
+                 'leadership changes are not varied (single active node); a restart stands for losing and regaining the active role'],
  'units': [{'name': 'lattice',
             'module': 'sdk',
             'pkg': './helper/verifh/c05l',
@@ -26,8 +26,8 @@ CHECK = {'level': 'exploration',
             'timeout': {'quick': 900, 'thorough': 3400}}]}
 
 META = {'engines': 'E0 E2 E3',
- 'technique': 'exhaustive input-lattice enumeration of the real TTL computation; BFS over renew/age/restart histories '
-              'on a real Core; crash-point enumeration',
+ 'technique': 'exhaustive input-lattice enumeration of the real TTL computation; BFS over renew/age/restart and namespace seal/unseal histories '
+              'on a real Core; crash-point and single-fault enumeration of renew / revoke / the revocation retry sequence',
  'text': 'The TTL arithmetic is a pure function of a small tuple: the whole lattice is enumerated and compared with '
          "the bound the statement gives. Renewal sequences and 'every stored lease is tracked' are history/crash "
          'properties: all histories to depth 3/4 and all crash points of renew/revoke are executed on a real Core with '
